@@ -17,7 +17,7 @@ META = {
                    'with scaled_tolerance(0.1, &self.transform) = x / sqrt(|det|); R11.4 (=R06.5) pop_layer and clear restore the transform; '
                    'R11.5 device-space operations (push_clip_rect, pop_clip, push_layer*, composite_surface family) never read the transform, '
                    'directly or through local callees, and mask() passes device-space rectangles; R11.6 (=R20.3) Path::transform maps every point.',
-    'decides': ['R11.1 geometry goes through the CTM', 'R11.2 sources use inverse CTM then source transform; singular CTM draws nothing', 'R11.3 stroke tolerance scales with the CTM',
+    'decides': ['R11.10 whether apply_path hands an op to the rasteriser does not depend on the transform (only a determinant == 0 test may)', 'R08.3/R08.4 curve tolerances in device space are constants', 'R13.3 repeat shader covers the whole span', 'R11.1 geometry goes through the CTM', 'R11.2 sources use inverse CTM then source transform; singular CTM draws nothing', 'R11.3 stroke tolerance scales with the CTM',
                 'R11.4 transform restored by pop_layer/clear', 'R11.5 device-space operations ignore the CTM', 'R11.6 Path::transform', 'R11.7 user-space and device-space quantities are never compared or combined except under transform == identity', 'R11.8 a method drawing its caller\'s Source never writes self.transform'],
     'does_not_decide': ['bit-identity of CTM vs pre-transformed path beyond the shared transform_point call', 'sampling positions as numbers', 'line width scaling as pixels'],
     'assumptions': ['euclid Transform2D::inverse/then/transform_point/determinant (external)'],
@@ -345,6 +345,42 @@ def r11_8(ctx):
     ctx.floor(R, 'methods drawing a caller-supplied Source', n, 4)
 
 
+def r11_10(ctx):
+    """whether a path's ops reach the rasteriser does not depend on the transform: no comparison that dominates one of
+    apply_path's move_to/line_to/quad_to/cubic_to/close calls reads self.transform — except a test of its determinant
+    against exactly zero (a singular transform leaves no area).  A transform-dependent skip drops the geometry for a
+    whole class of invertible transforms (e.g. `!(det > 0.)` drops every reflection)"""
+    R = 'R11.10'
+    b = ctx.body(DT + 'apply_path', R)
+    an = ctx.an(b)
+    key = 'draw_target::DrawTarget::apply_path'
+    names = ('move_to', 'line_to', 'quad_to', 'cubic_to', 'close')
+    sites = [(bi, d, ct) for bi, d, ct in calls_in(ctx, b) if d and d.startswith(DT) and d[len(DT):] in names]
+    ctx.floor(R, 'edge-adding calls of apply_path', len(sites), 5)
+    def reads_transform(t):
+        # condition terms are expanded through locals and inlined helpers: the read of self.transform is a subterm
+        return any(x[0] == 'field' and x[2] == 'transform' and strip_all(x[1]) in (('param', 1), ('deref', ('param', 1))) for x in subterms(t))
+    def singular_test(c):
+        while c[0] == 'un' and c[1] == 'Not':
+            c = c[2]
+        if c[0] == 'bin' and c[1] in ('Eq', 'Ne'):
+            for x, z in ((c[2], c[3]), (c[3], c[2])):
+                if const_val(z) == 0 and is_call(strip_all(x), 'determinant'):
+                    return True
+        return False
+    bad = {}
+    for bi, d, ct in sites:
+        for cond, truth, si in bool_guards(ctx, b, bi):
+            if reads_transform(cond) and not singular_test(cond):
+                bad.setdefault(si, (cond, truth, d))
+    if not bad:
+        ctx.ok(R, key + '|ops independent of the transform', b.loc(), 'no comparison on the transform decides whether an op is added (%d calls)' % len(sites))
+    for si, (cond, truth, d) in sorted(bad.items()):
+        ctx.fail(R, key + '|ops independent of the transform', b.loc(b.blocks[si]['t'].get('sp')),
+                 'whether apply_path hands the path to the rasteriser depends on the transform: %s is reached only when `%s` is %s — geometry is dropped for every transform on the other side of that test (a test of the determinant against exactly zero would be the only exact one)'
+                 % (d.split('::')[-1], fmt(b, cond)[:120], 'true' if truth else 'false'))
+
+
 def _r04_5(ctx):
     import sd
     sd.r04_5(ctx)
@@ -355,4 +391,4 @@ _r04_5.__name__ = 'r04_5'
 
 def run(ctx):
     import props.c14 as c14
-    engine.run_rules(ctx, [ras.r08_1, r11_2, r11_3, r11_7, r11_8, r11_9, c14.r14_1, _r04_5, dt.r11_6, dt.r06_5, r11_5, c13.r13_1, c13.r13_5, c12.r12_1, c12.r12_2, c12.r12_3, c20.r20_3, lambda c: c15.r15_3(c, c.body(c15.CS, 'R15.3'))])
+    engine.run_rules(ctx, [ras.r08_1, ras.r08_34, r11_2, r11_3, r11_7, r11_8, r11_9, r11_10, c14.r14_1, _r04_5, dt.r11_6, dt.r06_5, r11_5, c13.r13_1, c13.r13_3, c13.r13_5, c12.r12_1, c12.r12_2, c12.r12_3, c20.r20_3, lambda c: c15.r15_3(c, c.body(c15.CS, 'R15.3'))])
